@@ -127,6 +127,10 @@ func hC13PassThrough() {
 		req.Header.Set("Content-Length", "7")
 	}
 	if unmatchedMode == 1 {
+		if cfg.client == cfGRPC && verifChoose("overHTTP1", 2) == 1 {
+			// a gRPC-looking request over HTTP/1.1 to a path nobody configured: still the unknown handler's business
+			req.Proto, req.ProtoMajor, req.ProtoMinor = "HTTP/1.1", 1, 1
+		}
 		req.URL.Path = "/nope/" + string(nondetBytes("p", pathLen))
 		if verifTier() == 1 {
 			req.URL.RawQuery = "q=" + string(nondetBytes("query", 1))
